@@ -364,6 +364,71 @@ pub fn pattern_universe(tier: Tier) -> (Vec<String>, String, std::ops::Range<usi
 /// a whole buffer still finds every line that matches on its own; bounded
 /// exhaustive enumeration of two-line buffers, emulating the searcher's use of
 /// `find_candidate_line`.
+/// Pattern LISTS (several -e / -f patterns), with and without fixed strings:
+/// every list of up to three patterns over a pool in which some patterns hold
+/// a terminator byte. Whatever the builder does with the list (reject it, or
+/// accept it), a matcher that comes out may never produce a match holding a
+/// byte that is forbidden for its terminator.
+fn list_family() -> (u64, u64, u64, Vec<(String, serde_json::Value)>) {
+    use grep_matcher::Matcher;
+    let pool: [&str; 7] = ["a", "b\nc", "\n", "a\r\nb", "x\0y", "ab", "c\rd"];
+    let mut lists: Vec<Vec<&str>> = vec![];
+    for a in pool {
+        lists.push(vec![a]);
+        for b in pool {
+            lists.push(vec![a, b]);
+            for c in ["a", "b\nc", "x\0y"] {
+                lists.push(vec![a, b, c]);
+            }
+        }
+    }
+    let (mut built, mut accepted, mut rejected) = (0u64, 0u64, 0u64);
+    let mut disc = vec![];
+    for lt in [Lt::Lf, Lt::Crlf, Lt::Nul] {
+        let forbidden: &[u8] = match lt {
+            Lt::Lf => b"\n",
+            Lt::Crlf => b"\r\n",
+            _ => b"\0",
+        };
+        for fixed in [true, false] {
+            for case in [Case::Sensitive, Case::Insensitive, Case::Smart] {
+                let mut o = Opts::base(lt);
+                o.fixed = fixed;
+                o.case = case;
+                for l in lists.iter() {
+                    built += 1;
+                    let Ok(m) = o.build(l) else {
+                        rejected += 1;
+                        continue;
+                    };
+                    accepted += 1;
+                    // haystack: every pattern of the list, separated by '-'
+                    let mut h: Vec<u8> = vec![];
+                    for p in l.iter() {
+                        h.extend(p.bytes());
+                        h.push(b'-');
+                    }
+                    let mut at = 0;
+                    while at <= h.len() {
+                        let Ok(Some(mm)) = m.find_at(&h, at) else { break };
+                        if h[mm.start()..mm.end()].iter().any(|b| forbidden.contains(b)) {
+                            if disc.len() < 20 {
+                                disc.push((
+                                    format!("pattern-list | {} | {:?}", o.show(), l),
+                                    serde_json::json!({"kind":"match-holds-a-terminator-byte","options":o.show(),"patterns":l,"haystack":esc(&h),"match":[mm.start(), mm.end()]}),
+                                ));
+                            }
+                            break;
+                        }
+                        at = if mm.end() > at { mm.end() } else { at + 1 };
+                    }
+                }
+            }
+        }
+    }
+    (built, accepted, rejected, disc)
+}
+
 fn anchor_family() -> (u64, u64, u64, Vec<(String, serde_json::Value)>) {
     use grep_matcher::Matcher;
     let pats = [
@@ -479,6 +544,16 @@ pub fn run(args: &Args) -> ! {
         }
         machinery_error("C11: the automaton model disagrees with the real matcher on a replayed path (model drift)");
     }
+    let lists = list_family();
+    for (k, v) in lists.3.iter() {
+        verdict.discrepancy(None, k, v.clone());
+    }
+    if lists.1 == 0 || lists.2 == 0 {
+        machinery_error("C11: the pattern-list family is vacuous");
+    }
+    ev.set("pattern_lists_built", lists.0);
+    ev.set("pattern_lists_accepted", lists.1);
+    ev.set("pattern_lists_rejected", lists.2);
     let anchors = anchor_family();
     for (k, v) in anchors.3.iter() {
         verdict.discrepancy(None, k, v.clone());
@@ -514,7 +589,7 @@ pub fn run(args: &Args) -> ! {
     ev.set(
         "rule",
         format!(
-            "{}; x {} builder option sets. Per accepted matcher, four explicit-state explorations over ALL byte strings (one representative byte per joint DFA byte class): (a) anchored exploration of the final HIR's DFA from every look-behind context: no match contains a terminator byte; (b) product of the DFA of the pattern as written (harness-built from the flag documentation) and the final HIR's DFA over all terminator-free lines: same lines match; (c) as (a) for every byte in non_matching_bytes; (d) product of the final HIR's DFA and the DFA of the extracted inner literals: a matching line contains a literal, and literals are terminator-free. states/transitions = product states / transitions explored; traces_validated_against_impl = witnesses and shortest paths to product states replayed on the real RegexMatcher (is_match / find_at / find_candidate_line) with the DFA verdict compared (a disagreement is a machinery error, not a verdict). Unicode word boundaries: decided over ASCII lines (the DFA quits on non-ASCII). Text-anchor family (\\A, \\z, non-multi-line ^ $; twelve patterns x LF / CRLF, built with multi_line as the command line does): a matcher that declares a line terminator is run over every two-line buffer of lines up to length 3 over {{f,o,x}} the way the searcher's fast path uses find_candidate_line, and must stop in every line that matches on its own; a matcher that declares none is only ever asked about single lines.",
+            "{}; x {} builder option sets. Per accepted matcher, four explicit-state explorations over ALL byte strings (one representative byte per joint DFA byte class): (a) anchored exploration of the final HIR's DFA from every look-behind context: no match contains a terminator byte; (b) product of the DFA of the pattern as written (harness-built from the flag documentation) and the final HIR's DFA over all terminator-free lines: same lines match; (c) as (a) for every byte in non_matching_bytes; (d) product of the final HIR's DFA and the DFA of the extracted inner literals: a matching line contains a literal, and literals are terminator-free. states/transitions = product states / transitions explored; traces_validated_against_impl = witnesses and shortest paths to product states replayed on the real RegexMatcher (is_match / find_at / find_candidate_line) with the DFA verdict compared (a disagreement is a machinery error, not a verdict). Unicode word boundaries: decided over ASCII lines (the DFA quits on non-ASCII). Pattern-list family: every list of up to three patterns over a pool where some hold \\n, \\r or NUL x LF / CRLF / NUL x fixed strings on / off x case modes: a matcher that comes out of build_many never yields a match holding a forbidden byte. Text-anchor family (\\A, \\z, non-multi-line ^ $; twelve patterns x LF / CRLF, built with multi_line as the command line does): a matcher that declares a line terminator is run over every two-line buffer of lines up to length 3 over {{f,o,x}} the way the searcher's fast path uses find_candidate_line, and must stop in every line that matches on its own; a matcher that declares none is only ever asked about single lines.",
             desc, osets.len()
         ),
     );
